@@ -82,6 +82,8 @@ def layers():
                                                            "(XCondPatB %s [(PExpr %s, %s)] (PVar %s) %s [])" % (C(a), C(N(99)), C(N(0)), NM(v), c), t))(_sib(r)))
     add("XCondPatP-YExpr", ANY, lambda h, c, t, v, r: (lambda a: (X.condpat(a, [(X.pexpr(h), N(1)), (X.pwild(), N(2))]),
                                                                  "(XCondPatP %s [] (YExpr %s) %s [(PWild, %s)])" % (C(a), c, C(N(1)), C(N(2))), "N"))(_sib(r)))
+    add("XCondPatP-YExprs", ANY, lambda h, c, t, v, r: (lambda a: (X.condpat(a, [(X.pexprs([N(97), h, N(98)]), N(1)), (X.pwild(), N(2))]),
+                                                                  "(XCondPatP %s [] (YExprs [%s] %s [%s]) %s [(PWild, %s)])" % (C(a), C(N(97)), c, C(N(98)), C(N(1)), C(N(2))), "N"))(_sib(r)))
     add("XCondPatP-YArr-ZItemP", ANY, lambda h, c, t, v, r: (lambda a: (X.condpat(a, [(X.parr([X.item(X.pvar("a_")), X.item(X.pexpr(h))]), X.var("a_")), (X.pwild(), N(0))]),
                                                                        "(XCondPatP %s [] (YArr [PItem (PVar %s) None] (ZItemP (YExpr %s) None) []) (EVar %s) [(PWild, %s)])" % (C(a), NM("a_"), c, NM("a_"), C(N(0))), "N"))(X.arr([N(1), N(2)])))
     add("XCondPatP-YTup", ANY, lambda h, c, t, v, r: (lambda a: (X.condpat(a, [(X.ptup([("a", X.item(X.pexpr(h)))]), N(1)), (X.pwild(), N(0))]),
@@ -205,7 +207,7 @@ def pat_names(p):
     k = p[0]
     if k == "pvar":
         return [p[1]]
-    if k in ("pwild", "pexpr"):
+    if k in ("pwild", "pexpr", "pexprs"):
         return []
     if k in ("parr", "pset"):
         return [n for i in p[1] for n in item_names(i)]
@@ -277,6 +279,8 @@ def subst_pat(p, x, v):
         return p
     if k == "pexpr":
         return (k, subst(p[1], x, v))
+    if k == "pexprs":
+        return (k, [subst(a, x, v) for a in p[1]])
     if k in ("parr", "pset"):
         return (k, [si(i) for i in p[1]])
     if k == "ptup":
@@ -294,7 +298,7 @@ def gen_body(rng, d, x, numeric, others=()):
         return leaf()
     g = lambda oth=others: gen_body(rng, d - 1, x, numeric, oth)
     forms = ["let-shadow", "let-other", "fn-shadow", "arrow-shadow", "darrow-shadow", "darrow-other", "condpat-shadow", "condpat-lit",
-             "arrpat-shadow", "tuppat-shadow", "fallback", "cond", "arr", "dictkey", "tupdot", "setpat", "seq-shadow", "where-other", "and-or"]
+             "arrpat-shadow", "tuppat-shadow", "fallback", "condpat-alts", "cond", "arr", "dictkey", "tupdot", "setpat", "seq-shadow", "where-other", "and-or"]
     if numeric:
         forms += ["bin", "bin", "cmp-cond"]
     f = rng.choice(forms)
@@ -316,6 +320,8 @@ def gen_body(rng, d, x, numeric, others=()):
         return X.condpat(g(), [(X.pexpr(N(98)), N(0)), (X.pvar(x), g())])
     if f == "condpat-lit":                      # the pattern literal (x) reads the outer x
         return X.condpat(g(), [(X.pexpr(V(x)), N(1)), (X.pwild(), g())])
+    if f == "condpat-alts":                     # the alternatives (x, 7) read the outer x; the arm that rebinds x does not
+        return X.condpat(g(), [(X.pexprs([N(96), V(x)]), g()), (X.pvar(x), V(x))])
     if f == "arrpat-shadow":
         return X.let(X.parr([X.item(X.pvar(x)), X.item(X.pvar("p_"))]), X.arr([g(), N(2)]), X.arr([V(x), V("p_")]))
     if f == "tuppat-shadow":
@@ -365,6 +371,7 @@ def subst_cases(rng, n):
         lambda x: X.arr([V(x), X.darrow(X.set_([N(7), N(8)]), X.fn(X.pvar(x), X.arr([V(x)])))]),
         lambda x: X.arr([V(x), X.condpat(N(7), [(X.pvar(x), X.arr([V(x)]))])]),
         lambda x: X.arr([V(x), X.condpat(V(x), [(X.pexpr(V(x)), N(1)), (X.pwild(), N(2))])]),
+        lambda x: X.arr([V(x), X.condpat(V(x), [(X.pexprs([N(96), V(x)]), N(1)), (X.pwild(), N(2))]), X.condpat(N(95), [(X.pexprs([N(96), V(x)]), N(1)), (X.pvar(x), V(x))])]),
         lambda x: X.arr([V(x), X.let(X.parr([X.item(X.pvar(x)), X.extra("r_")]), X.arr([N(7), N(8)]), X.arr([V(x), V("r_")]))]),
         lambda x: X.arr([V(x), X.let(X.ptup([("a", X.item(X.pvar(x)))]), X.tup([("a", N(7))]), V(x))]),
         lambda x: X.arr([V(x), X.let(X.parr([X.item(X.pvar("p_")), X.item(X.pvar(x), V(x))]), X.arr([N(1)]), X.arr([V("p_"), V(x)]))]),
